@@ -17,6 +17,8 @@ shutil.copy(demo_src, demo)  # neutral place: a demo may put its own parent dire
 notes = os.path.join(src, f'{which}.md')
 def sh(cmd, **kw):
     return subprocess.run(cmd, shell=True, capture_output=True, text=True, **kw)
+# first-run verdicts come from a frozen copy of the committed checker when one exists (rules may be edited meanwhile)
+CHECK = '/tmp/verif_frozen/check' if os.path.exists('/tmp/verif_frozen/check') else '/verif/check'
 assert sh('git -C /repo status --porcelain').stdout.strip() == '', 'repo not clean'
 r = sh(f'git -C /repo apply --check {patch}')
 if r.returncode:
@@ -32,7 +34,7 @@ try:
     caught = {}
     for i in range(1, 21):
         p = f'C{i:02d}'
-        c = sh(f'VERIF_NO_EVIDENCE=1 /venv/bin/python /verif/check {p}')
+        c = sh(f'VERIF_NO_EVIDENCE=1 /venv/bin/python {CHECK} {p}')
         if c.returncode != 0:
             keys = [l.strip() for l in c.stdout.splitlines() if l.startswith('  C') or l.startswith('ANALYSIS-ERROR')]
             caught[p] = {'rc': c.returncode, 'keys': keys[:6]}
